@@ -399,6 +399,7 @@ type CloserCase struct {
 	Write    bool   `json:"write"`
 	NilClose bool   `json:"nilclose,omitempty"`
 	CloseErr string `json:"closeerr,omitempty"`
+	Reenter  bool   `json:"reenter,omitempty"` // the close function uses the wrapper itself (an owner that closes everything it holds)
 	Ops      []IOOp `json:"ops"`
 }
 
@@ -407,6 +408,7 @@ func genCloser(t *rapid.T) CloserCase {
 		Write:    rapid.Bool().Draw(t, "write"),
 		NilClose: rapid.IntRange(0, 7).Draw(t, "nilclose") == 0,
 		CloseErr: rapid.SampledFrom([]string{"", "", "boom", "eof"}).Draw(t, "closeerr"),
+		Reenter:  rapid.IntRange(0, 3).Draw(t, "reenter") == 0,
 		Ops:      rapid.SliceOfN(genIOOp([]string{"read", "read", "read", "close"}), 1, ev.Pick(20, 80)).Draw(t, "ops"),
 	}
 }
@@ -417,11 +419,31 @@ func checkCloser(_ *testing.T, v *ev.Verdict, c CloserCase) {
 		st := &scriptedStream{}
 		closeCalls := 0
 		var cf func() error
-		if !c.NilClose {
-			cf = func() error { closeCalls++; return scriptErr(c.CloseErr) }
-		}
 		var rd *iocloser.ReadCloser
 		var wr *iocloser.WriteCloser
+		if !c.NilClose {
+			cf = func() error {
+				closeCalls++
+				if c.Reenter {
+					// the wrapper is closed by now: its methods answer as after Close, without
+					// running this function again and without touching the stream
+					before := len(st.calls)
+					var n int
+					var err, cerr error
+					if c.Write {
+						n, err = wr.Write([]byte{1})
+						cerr = wr.Close()
+					} else {
+						n, err = rd.Read(make([]byte, 1))
+						cerr = rd.Close()
+					}
+					if n != 0 || err != io.EOF || cerr != nil || len(st.calls) != before {
+						v.Add(P, "iocloser:after-close", "inside the close function the wrapper answered (%d, %v) / Close=%v and touched the stream %d times; want (0, EOF), nil, 0", n, err, cerr, len(st.calls)-before)
+					}
+				}
+				return scriptErr(c.CloseErr)
+			}
+		}
 		if c.Write {
 			wr = iocloser.NewWriteCloser(st, cf)
 		} else {
